@@ -17,7 +17,7 @@ if [ -f "$mdir/demo_test.go" ]; then
   if go test -count=1 -vet=off -run "^$name\$" ./$pkg/ >/tmp/seed-$$-a.log 2>&1; then demo_without=pass; else demo_without=FAIL; fi
 fi
 if ! git apply "$mdir/patch.diff"; then echo "VERDICT $prop $(basename $mdir): patch does not apply"; exit 2; fi
-if ! go build ./... >/tmp/seed-$$-b.log 2>&1; then echo "VERDICT $prop $(basename $mdir): does not build"; tail -5 /tmp/seed-$$-b.log; exit 2; fi
+if ! go build ./$pkg/ >/tmp/seed-$$-b.log 2>&1; then echo "VERDICT $prop $(basename $mdir): does not build"; tail -5 /tmp/seed-$$-b.log; exit 2; fi
 if [ -f "$pkg/zz_seed_demo_test.go" ]; then
   if go test -count=1 -vet=off -run "^$name\$" ./$pkg/ >/tmp/seed-$$-c.log 2>&1; then demo_with=PASS; else demo_with=fail; fi
   rm -f "$pkg/zz_seed_demo_test.go"
